@@ -678,8 +678,11 @@ class ParallelEtherCat(FastEtherCat):
             except Exception:
                 shutil.rmtree(lockdir)
                 raise
+        # terminal_addr_range includes its upper end (find_free_address draws
+        # with randint), the range of a LockFile does not
         self.mbx_lock_file = LockFile(f'/run/ebpf/{self.addr[0]}',
-                                      *self.terminal_addr_range)
+                                      self.terminal_addr_range[0],
+                                      self.terminal_addr_range[1] + 1)
         self.fmmu_lock_file = FMMULock(f'/run/ebpf/{self.addr[0]}.fmmu')
         try:
             yield
